@@ -1676,3 +1676,98 @@ func ruleBinaryLeaf(c *Ctx, r *Report) {
 	}
 	r.Check(fresh, "ygot.copyBinaryField:fresh-copy", c.Pos(g.Decl.Pos()), "destination gets reflect.MakeSlice + reflect.Copy of the source bytes", "copyBinaryField does not store a fresh copy of the source's bytes")
 }
+
+// ---- R-SLICE-EMPTINESS (C14, C02, C03) -----------------------------------------------------------
+
+// ruleSliceEmptiness: a slice-kinded GoStruct field is a leaf-list, an unkeyed list, or a leaf of
+// type binary. Length zero means "no data" for the first two only.
+func ruleSliceEmptiness(c *Ctx, r *Report, floor int) {
+	r.Rule("R-SLICE-EMPTINESS", "wherever ygot's generic struct walkers decide from Len() (compared with 0) whether a slice-kinded field holds data, the same condition treats the Binary leaf type separately: a zero-length, non-nil binary is a value (it renders as \"\"), while a leaf-list or unkeyed list without entries holds none", floor)
+	for _, f := range c.AllFuncs("ygot") {
+		info := f.Info()
+		pm := c.parentMap(f.File)
+		n := 0
+		ast.Inspect(f.Decl.Body, func(x ast.Node) bool {
+			be, ok := x.(*ast.BinaryExpr)
+			if !ok {
+				return true
+			}
+			switch be.Op {
+			case token.EQL, token.NEQ, token.GTR:
+			default:
+				return true
+			}
+			call, ok := ast.Unparen(be.X).(*ast.CallExpr)
+			if !ok || FullName(Callee(info, call)) != "reflect.Value.Len" {
+				return true
+			}
+			if v, ok := ConstOf(info, be.Y); !ok || v != "0" {
+				return true
+			}
+			// the whole condition this comparison belongs to.
+			var whole ast.Expr = be
+			for {
+				p, ok := pm[whole].(ast.Expr)
+				if !ok {
+					break
+				}
+				switch p.(type) {
+				case *ast.BinaryExpr, *ast.ParenExpr, *ast.UnaryExpr:
+					whole = p
+					continue
+				}
+				break
+			}
+			sliceKind := func(e ast.Expr) bool {
+				found := false
+				ast.Inspect(e, func(m ast.Node) bool {
+					switch y := m.(type) {
+					case *ast.CallExpr:
+						switch FullName(Callee(info, y)) {
+						case P("util") + ".IsTypeSlice", P("util") + ".IsValueSlice":
+							found = true
+						}
+					case *ast.SelectorExpr:
+						if constName(info, y) == "reflect.Slice" {
+							found = true
+						}
+					}
+					return true
+				})
+				return found
+			}
+			isSlice := sliceKind(whole)
+			for _, ft := range c.FactsAt(f, be, false) {
+				if !ft.Pos {
+					continue
+				}
+				if ft.Kind == "cond" && sliceKind(ft.Cond) {
+					isSlice = true
+				}
+				if ft.Kind == "switch" {
+					for _, v := range ft.Vals {
+						if constName(info, v) == "reflect.Slice" || sliceKind(v) {
+							isSlice = true
+						}
+					}
+				}
+			}
+			if !isSlice {
+				return true
+			}
+			n++
+			binary := false
+			ast.Inspect(whole, func(m ast.Node) bool {
+				if e, ok := m.(ast.Expr); ok {
+					if v, ok := ConstOf(info, e); ok && strings.Trim(v, `"`) == "Binary" {
+						binary = true
+					}
+				}
+				return true
+			})
+			r.Check(binary, fmt.Sprintf("%s:slice-emptiness#%d", f.Name, n), c.Pos(be.Pos()), "Binary handled in the same condition: "+exprKey(whole),
+				fmt.Sprintf("%s decides from %s alone whether a slice-kinded field holds data: a leaf of type binary set to the zero-length value is taken for an empty list (PruneEmptyBranches removes the container that holds only that leaf; a walker skips the leaf)", f.Name, types.ExprString(be)))
+			return true
+		})
+	}
+}
